@@ -8,6 +8,7 @@ import (
 	"os"
 	"os/exec"
 	"strings"
+	"testing"
 
 	"pgregory.net/rapid"
 	"vh/drv"
@@ -649,6 +650,29 @@ func (p c18) fresh(c *Ctx, cs *C18Case) Outcome {
 	if len(distinct)*10 < len(a)*9 {
 		out.Viol = violf("C18:fresh:repeated-cases", "only %d distinct test cases among %d in one run", len(distinct), len(a))
 		return out
+	}
+	// one function value returned by MakeCheck, run twice as a sub-test: two Check calls like any other two
+	if !cs.Pinned && cs.Stale == "" {
+		var runs [][]string
+		x := NewInterp(freshProg())
+		applyCfg(CheckCfg{Name: "TestFresh", Seed: 0, Checks: 5, ShrinkNS: 0, NoFailFile: true})
+		f := rapid.MakeCheck(x.Prop)
+		for i := 0; i < 2; i++ {
+			n0 := len(x.Log)
+			Hosted(func(t *testing.T) { f(t) })
+			x.Finish()
+			var cases []string
+			for _, inv := range x.Log[n0:] {
+				cases = append(cases, inv.DrawCanon())
+			}
+			runs = append(runs, cases)
+		}
+		resetFlags()
+		out.Classes = append(out.Classes, "fresh-one-MakeCheck-function-twice")
+		if len(runs[0]) > 0 && len(runs[1]) > 0 && runs[0][0] == runs[1][0] {
+			out.Viol = violf("C18:fresh:same-sequence-in-process", "the function returned by one MakeCheck call, run twice without -rapid.seed, started with the same test case %s both times", runs[0][0])
+			return out
+		}
 	}
 	// across processes
 	var first []string
